@@ -159,6 +159,33 @@ impl Likely {
                     }
                 }
             }
+            // long (5-8 letter) languages that merely CONTAIN a known language: a look-up key
+            // that keeps only part of the subtag (first three bytes, low 32 bits ...) confuses
+            // them with it. Every known language padded to 5 letters; the languages that own
+            // two-component entries also padded to 8 letters and prefixed.
+            let known: Vec<String> = langs[1..n_known_langs].to_vec();
+            let rich: BTreeSet<String> = entries
+                .iter()
+                .filter_map(|(k, _)| {
+                    let mut it = k.split('-');
+                    let first = it.next()?;
+                    if kind(first) == 'L' && it.next().is_some() {
+                        Some(first.to_string())
+                    } else {
+                        None
+                    }
+                })
+                .collect();
+            for l in &known {
+                if l.len() > 3 {
+                    continue;
+                }
+                add(format!("{l}{}", &"xxx"[..5 - l.len()]), &mut have, &mut langs);
+                if rich.contains(l) {
+                    add(format!("{l}{}", &"qrstuv"[..8 - l.len()]), &mut have, &mut langs);
+                    add(format!("{}{l}", &"zzz"[..5 - l.len()]), &mut have, &mut langs);
+                }
+            }
             let mut have: BTreeSet<String> = scripts.iter().cloned().collect();
             for s in SPECIAL_SCRIPTS {
                 add(s.to_string(), &mut have, &mut scripts);
